@@ -124,7 +124,7 @@ PROPS = {
     },
     "C13": {
         "title": "Compaction actually reclaims space and never grows the store",
-        "rules": [k2m.s7_s8_merge_sets, k2m.p5_merge_outputs_before_unlink, k3.s5_trigger_threshold_roles, k9.s13_counter_arithmetic, k9.s2c_unconditional_counting, k9.s7b_merge_counts_in_output, k9.p14b_merge_rollover_test, k8.s12_config_setters, k5.ghint_hint_validation],
+        "rules": [k2m.s7_s8_merge_sets, k2m.p5_merge_outputs_before_unlink, k3.s5_trigger_threshold_roles, k9.s13_counter_arithmetic, k9.s2c_unconditional_counting, k9.s7b_merge_counts_in_output, k9.p14b_merge_rollover_test, k8.s12_config_setters, k5.ghint_hint_validation, k10.s13c_counters_start_at_zero],
         "decides": "only entries located in the selected files are copied and the selected set is exactly the removed set; each selected id loses accounting entry, hint file and data file, only NotFound tolerated; selection compares statistics with the thresholds, like with like; the counters behind the selection move as named and fragmentation = dead/(dead+live); dead records are counted unconditionally (a file holding only tombstones of absent keys still becomes eligible); copied entries are booked on the right output; merge outputs are rolled over on the running offset; no setting (e.g. a threshold) is rewritten between the setters and the running store; a merge that returns Ok removed every file it selected; a hint entry rejected by the extent test touches neither the index nor the per-file statistics (no phantom live keys)",
         "not_decided": "sizes, 'exactly as large as a fresh store', idempotence",
     },
@@ -161,7 +161,7 @@ PROPS = {
     },
     "C19": {
         "title": "Per-file live/dead accounting always matches the files' real contents",
-        "rules": [k3.s3_displaced_accounting, k3.s2_live_vs_recovery, k2m.s7_s8_merge_sets, k9.s13_counter_arithmetic, k9.s2c_unconditional_counting, k9.s7b_merge_counts_in_output, k2.p3_publish_after_append, k5.ghint_hint_validation, k10.t2_no_narrowing],
+        "rules": [k3.s3_displaced_accounting, k3.s2_live_vs_recovery, k2m.s7_s8_merge_sets, k9.s13_counter_arithmetic, k9.s2c_unconditional_counting, k9.s7b_merge_counts_in_output, k2.p3_publish_after_append, k5.ghint_hint_validation, k10.t2_no_narrowing, k10.s13c_counters_start_at_zero],
         "decides": "every displaced index entry is routed to overwrite(prev.len) on the file it lived in; every append is counted on the file it went to (before rollover) with the appended length; the rebuild counts like the live path; merge counts each copied entry live on the output it went to, looked up per entry; add_live/add_dead/overwrite change exactly the counters they name by 1 resp. the given byte count, on a single straight path; every record (also a tombstone of an absent key) is counted on the file it lies in on every path, in the writer and in the recovery scan alike; a merge books each copied entry on the output it was copied into (the id is not rolled over in between); the index (and with it the accounting of the displaced entry) changes only after the record was appended: a failed delete leaves index and counters untouched; a hint entry rejected by the extent test touches neither the index nor the per-file statistics (no phantom live keys); counters and location fields are 64 bits wide and no source-level cast in the storage layer narrows an integer",
         "not_decided": "equality with ground truth over histories; underflow of live_keys",
     },
